@@ -141,7 +141,9 @@ class DocGen:
             doc['models'].append((name, self.program_rules(alias_names, model_names)))
         # applications
         app_keys = []
-        pats = ['app', 'app_', 'app_\\d+', '^app_1', 'pp_', 'app_1$', '.*', 'app_[12]', 'zzz', '_\\d']
+        # (a pattern may be the very text of an application name: two elements then carry the same string)
+        pats = ['app', 'app_', 'app_\\d+', '^app_1', 'pp_', 'app_1$', '.*', 'app_[12]', 'zzz', '_\\d',
+                'app_1', 'app_2', 'app_3']
         if rng.random() < 0.05:
             pats = pats + ['app_(', '[', '*app', 'app_\\']
         for a in range(rng.randint(1, 5)):
